@@ -101,7 +101,7 @@ func callCtx(f func(*fasthttp.RequestCtx), body []byte, uv map[string]string, qu
 
 func newAlertEnv(dir string) (*alertEnv, error) {
 	e := &alertEnv{hooks: map[string][]string{}}
-	e.srv = httptest.NewServer(http.HandlerFunc(func(w http.ResponseWriter, r *http.Request) {
+	e.srv = httptest.NewUnstartedServer(http.HandlerFunc(func(w http.ResponseWriter, r *http.Request) {
 		b, _ := io.ReadAll(r.Body)
 		var wb alertutils.WebhookBody
 		_ = json.Unmarshal(b, &wb)
@@ -109,6 +109,11 @@ func newAlertEnv(dir string) (*alertEnv, error) {
 		e.hooks[r.URL.Path] = append(e.hooks[r.URL.Path], wb.Status)
 		e.mu.Unlock()
 	}))
+	// sendWebhooks builds a new http.Client/Transport per notification and never closes its idle
+	// connection: with keep-alive one TCP connection leaks per notification (the first thorough run
+	// stopped at 20000 open files).  The receiver therefore closes every connection after the answer.
+	e.srv.Config.SetKeepAlivesEnabled(false)
+	e.srv.Start()
 	config.InitializeTestingConfig(dir + "/")
 	alertsHandler.VerifQuietScheduler()
 	if err := alertsHandler.ConnectSiglensDB(); err != nil {
